@@ -360,6 +360,9 @@ func (g *gen17) ty(d int, allowVar, allowBot bool) *T17 {
 		o := &T17{K: "obj"}
 		names := []string{"a", "b", "c", "d", "e"}
 		off := r.intn(5)
+		if r.chance(0.08) {
+			w = 0 // the empty object
+		}
 		for i := 0; i < w; i++ {
 			o.F = append(o.F, names[(off+i)%5])
 			o.A = append(o.A, g.ty(d-1, allowVar, allowBot))
@@ -367,6 +370,9 @@ func (g *gen17) ty(d int, allowVar, allowBot bool) *T17 {
 		return o
 	case 4:
 		f := &T17{K: "fun", N: r.pick([]string{"f", "g"})}
+		if r.chance(0.2) {
+			w = 0 // a function without parameters
+		}
 		for i := 0; i < w; i++ {
 			f.A = append(f.A, g.ty(d-1, allowVar, allowBot))
 		}
